@@ -208,3 +208,18 @@ mod test {
         assert!(current_cpu_usage() > 0.0);
     }
 }
+
+/// Verification hook (compiled only with `--cfg flea1lt_sentinel_rust_verif`): inject the
+/// collected readings (the setters above exist only under `cfg(test)`).
+#[cfg(flea1lt_sentinel_rust_verif)]
+pub mod verif_set {
+    pub fn system_load(load: f64) {
+        *super::CURRENT_LOAD.lock().unwrap() = load;
+    }
+    pub fn cpu_usage(usage: f32) {
+        *super::CURRENT_CPU.lock().unwrap() = usage;
+    }
+    pub fn memory_usage(usage: u64) {
+        super::CURRENT_MEMORY.store(usage, std::sync::atomic::Ordering::SeqCst);
+    }
+}
